@@ -405,14 +405,18 @@ pub fn run(ctx: &mut Ctx) {
     // hand-written quantities the generator does not produce: temperatures (offset units, with the kelvin of the layered
     // converter), unit texts that are one letter away from a known unit and must stay untouched
     if ctx.shard == 0 {
-        for (text, ext) in [
-            ("Cool with @liquid nitrogen{77%K} below @limit{=300%K}, keep @water{20%°C} and @oil{350%°F}.", Extensions::all().bits()),
-            ("Wait ~{500%ms} then ~{20-40%ms} then ~{90%min}; add @a{3%gs} @b{2%ls} @c{1%kgs} @d{5%mins} @e{2%tsps} @f{1%Ls}.", (Extensions::all() ^ Extensions::ADVANCED_UNITS).bits()),
-            ("@a{500%ms} @b{3%gs} @c{2%ozs} @d{1%lbss} @e{4%cm s}", Extensions::all().bits()),
+        for (text, ext, declared) in [
+            ("Cool with @liquid nitrogen{77%K} below @limit{=300%K}, keep @water{20%°C} and @oil{350%°F}.", Extensions::all().bits(), J::Null),
+            ("Wait ~{500%ms} then ~{20-40%ms} then ~{90%min}; add @a{3%gs} @b{2%ls} @c{1%kgs} @d{5%mins} @e{2%tsps} @f{1%Ls}.", (Extensions::all() ^ Extensions::ADVANCED_UNITS).bits(), J::Null),
+            ("@a{500%ms} @b{3%gs} @c{2%ozs} @d{1%lbss} @e{4%cm s}", Extensions::all().bits(), J::Null),
+            // ranges that start at zero, with units of every system and without
+            ("Add @flour{0-2%kg}, @salt{0-1%tsp}, @milk{0-0.5%l}, @x{0-0%g}, @sugar{0-3%oz}, @y{0-2} and @z{0-4%pinch} for ~{0-10%min}.", Extensions::all().bits(), J::Null),
+            (">> servings: 4\n>> title: Soup\n>> description: warm\n\nAdd @flour{0-2%kg} and @water{1%l}.\n", Extensions::all().bits(), json!([4])),
+            (">> yield: 3|6\n>> cuisine: any\n>> tags: a, b\n\nAdd @flour{300%g} and @water{1-2%cup}.\n", Extensions::all().bits(), json!([3, 6])),
         ] {
             for conv in ["layered", "bundled"] {
-                let case = Case::new("fixed", text, ext, conv);
-                check_case(ctx, &mut ps, &case, &[1.0, 2.0, 0.5, 3.0], &[2]);
+                let case = Case::new("fixed", text, ext, conv).with(json!({"declared_servings": declared.clone()}));
+                check_case(ctx, &mut ps, &case, &[1.0, 2.0, 0.5, 3.0], &[2, 6]);
                 ctx.count("handwritten_offset_and_near_miss_units");
             }
         }
